@@ -12,6 +12,7 @@ use anda_db::{
     schema::{AndaDBSchema, Document, FieldKey, Fv, Vector, bf16},
     storage::StorageConfig,
 };
+use anda_object_store::{FaultHandle, FaultStore};
 use object_store::memory::InMemory;
 use serde::{Deserialize, Serialize};
 use std::collections::{BTreeMap, BTreeSet, HashMap};
@@ -540,7 +541,13 @@ fn db_config() -> DBConfig {
 /// Runs one case (protocol lines, first line `schema …`) on a real collection.
 pub async fn run_real(ops: &[String]) -> Result<CaseRun, String> {
     if ops.first().map(|s| s.as_str()) != Some(schema_line().as_str()) { return Err("case must start with the fixed schema line".into()); }
-    let db = AndaDB::connect(Arc::new(InMemory::new()), db_config()).await.map_err(|e| format!("connect: {e}"))?;
+    // one backend for the whole case; every boot (process) reaches it through its own `FaultStore`, so a
+    // power loss can cut the old process off: nothing it still tries to write (drop handlers, late tasks)
+    // reaches the backend, which keeps exactly the writes that had completed
+    let base: Arc<InMemory> = Arc::new(InMemory::new());
+    let boot = |base: &Arc<InMemory>| -> (Arc<FaultStore<Arc<InMemory>>>, FaultHandle) { let (s, h) = FaultStore::wrap(base.clone()); (Arc::new(s), h) };
+    let (store, mut power) = boot(&base);
+    let mut db = AndaDB::connect(store, db_config()).await.map_err(|e| format!("connect: {e}"))?;
     let mut run = CaseRun { steps: vec![], complaints: vec![] };
     let mut dict: HashMap<Vec<u8>, String> = HashMap::new();
     let mut coll: Option<Arc<Collection>> = None;
@@ -551,7 +558,9 @@ pub async fn run_real(ops: &[String]) -> Result<CaseRun, String> {
         let line = &ops[i];
         let toks: Vec<&str> = line.split(' ').filter(|s| !s.is_empty()).collect();
         match toks.as_slice() {
-            ["schema", ..] | ["reopen"] => {
+            ["schema", ..] | ["reopen"] | ["crash"] => {
+                let crashed = toks[0] == "crash";
+                let before_reopen = if toks[0] == "reopen" { last.as_ref().map(|o| o.dump.clone()) } else { None };
                 // the group: this line plus the index operations that follow it run inside the open callback
                 let mut j = i + 1;
                 while j < ops.len() && is_ix_op(&ops[j]) { j += 1; }
@@ -568,6 +577,16 @@ pub async fn run_real(ops: &[String]) -> Result<CaseRun, String> {
                 };
                 let c = if toks[0] == "schema" {
                     db.open_or_create_collection(Doc::schema().map_err(|e| format!("schema: {e}"))?, CollectionConfig { name: "c".into(), description: String::new() }, cb).await
+                } else if crashed {
+                    // power loss: the old process is cut off from the backend and dropped without close;
+                    // a new process connects to what the backend holds and opens the collection (recovery)
+                    power.crash_after_mutations(0);
+                    drop(coll.take());
+                    drop(db);
+                    let (store, h) = boot(&base);
+                    power = h;
+                    db = AndaDB::connect(store, db_config()).await.map_err(|e| format!("connect after crash: {e}"))?;
+                    db.open_collection("c".into(), cb).await
                 } else {
                     drop(coll.take());
                     db.close_collection("c").await.map_err(|e| format!("close: {e}"))?;
@@ -575,12 +594,18 @@ pub async fn run_real(ops: &[String]) -> Result<CaseRun, String> {
                 }
                 .map_err(|e| format!("open: {e}"))?;
                 let last_dump = recs.last().map(|r| r.0.dump.clone()).unwrap_or_default();
-                for (n, (rec, obs)) in recs.into_iter().enumerate() {
-                    for (k, w, e, o) in obs.complaints { run.complaints.push((i + n, k, w, e, o)); }
+                for (n, (mut rec, obs)) in recs.into_iter().enumerate() {
+                    // inside the open callback after a crash the collection is loaded but not yet recovered:
+                    // neither compared nor judged (recovery runs after the callback)
+                    if crashed { rec.dump = "unrecovered".into(); } else { for (k, w, e, o) in obs.complaints { run.complaints.push((i + n, k, w, e, o)); } }
                     run.steps.push(rec);
                 }
                 let after = observe(&c, &mut dict, probe).await;
-                if after.dump != last_dump {
+                if crashed { for (k, w, e, o) in after.complaints.clone() { run.complaints.push((j - 1, format!("after-crash:{k}"), format!("after crash recovery: {w}"), e, o)); } }
+                if let Some(b) = &before_reopen && j == i + 1 && *b != after.dump {
+                    run.complaints.push((i, "reopen:changed-state".into(), "a clean close + open changed what the collection shows".into(), b.clone(), after.dump.clone()));
+                }
+                if !crashed && after.dump != last_dump {
                     run.complaints.push((j - 1, "open:post-processing-changed-state".into(), "the collection differs between the end of the open callback and the returned handle".into(), last_dump, after.dump.clone()));
                 }
                 last = Some(after);
@@ -624,6 +649,7 @@ pub async fn run_real(ops: &[String]) -> Result<CaseRun, String> {
                 match c.update(id, fields).await { Ok(_) => "ok".into(), Err(e) => err_name(&e) }
             }
             ["flush"] => match c.flush(anda_db::unix_ms()).await { Ok(_) => "ok".into(), Err(e) => err_name(&e) },
+            ["check"] => "ok".into(),
             ["rm", id] => {
                 let id: u64 = id.parse().map_err(|_| "bad rm")?;
                 match c.remove(id).await { Ok(Some(_)) => "removed 1".into(), Ok(None) => "absent".into(), Err(e) => err_name(&e) }
